@@ -336,6 +336,65 @@ def stepEv (o : Ovl) : Ev → Ovl
 
 def runEv (o : Ovl) (evs : List Ev) : Ovl := evs.foldl stepEv o
 
+/-! ### two cooperating servers (described at the head of `Model/C06Net.lean`) -/
+
+/-- `&Roster{}`: what `handleRequestRoster` sends when it knows no such roster -/
+def emptyRoster : Roster := { id := 0, list := [] }
+
+/-- a reply, as the message its addressee handles -/
+def Out.toMsg : Out → Msg
+  | .responseTree tm ro => .responseTree (some tm) ro
+  | .treeMarshal tm => .treeMarshal tm
+  | .requestRoster rid => .requestRoster rid
+  | .roster ro => .sendRoster (ro.getD emptyRoster)
+
+inductive Site where
+  | A | B
+  deriving DecidableEq, Repr
+
+def Site.other : Site → Site
+  | .A => .B
+  | .B => .A
+
+/-- the two overlays and, per server, the messages on their way to it -/
+structure Net where
+  ovl   : Site → Ovl
+  inbox : Site → List Msg
+
+def upd {α : Type} (f : Site → α) (s : Site) (v : α) : Site → α := fun s' => if s' = s then v else f s'
+
+inductive NetEv where
+  | loc (s : Site) (l : Local)
+  | ask (s : Site) (id version : Nat)
+  | deliver (s : Site) (i : Nat)
+  | redeliver (s : Site) (i : Nat)
+  | drop (s : Site) (i : Nat)
+
+/-- `s` handles `m`; its replies are on their way to the other server -/
+def Net.handleAt (n : Net) (s : Site) (m : Msg) (rest : List Msg) : Net :=
+  let r := handle (n.ovl s) m
+  let inbox := upd n.inbox s rest
+  { ovl := upd n.ovl s r.1, inbox := upd inbox s.other (inbox s.other ++ r.2.map Out.toMsg) }
+
+def netStep (n : Net) : NetEv → Net
+  | .loc s l => { n with ovl := upd n.ovl s (localStep (n.ovl s) l) }
+  | .ask s id v =>
+    let o := n.ovl s
+    { ovl := upd n.ovl s (localStep o (.reqSend id)),
+      inbox := if o.wouldRequest id then upd n.inbox s.other (n.inbox s.other ++ [.requestTree id v]) else n.inbox }
+  | .deliver s i =>
+    match (n.inbox s)[i]? with
+    | none => n
+    | some m => n.handleAt s m ((n.inbox s).eraseIdx i)
+  | .redeliver s i =>
+    match (n.inbox s)[i]? with
+    | none => n
+    | some m => n.handleAt s m (n.inbox s)
+  | .drop s i => { n with inbox := upd n.inbox s ((n.inbox s).eraseIdx i) }
+
+def netRun (n : Net) (evs : List NetEv) : Net := evs.foldl netStep n
+
+
 /-! ### line-protocol driver -/
 namespace Drv
 
@@ -345,6 +404,7 @@ structure State where
   trees   : List (Nat × Tree) := []
   shapes  : List (Nat × (Nat × List (Nat × Nat × Nat))) := []   -- per tree label: roster label, items
   ovl     : Ovl := {}
+  net     : Net := { ovl := fun _ => {}, inbox := fun _ => [] }
 
 def init : State := {}
 
@@ -513,6 +573,58 @@ def wireRoster (st : State) (s : String) : Option (Option Roster) :=
     match ro with
     | some r => if r.list.any (·.nokey) then none else some ro
     | none => some none
+
+def showMsg : Msg → String
+  | .requestTree id v => s!"reqtree({id},{v})"
+  | .responseTree tm ro =>
+    "resptree(" ++ (match tm with | none => "nil" | some t => showTM t) ++ " " ++
+      (match ro with | none => "nil" | some r => showRoster r) ++ ")"
+  | .treeMarshal tm => "tm(" ++ showTM tm ++ ")"
+  | .requestRoster rid => s!"reqroster({rid})"
+  | .sendRoster ro => if ro.id = 0 ∧ ro.list = [] then "roster(empty)" else "roster(" ++ showRoster ro ++ ")"
+
+def showNet (n : Net) : String :=
+  "A:" ++ showStore (n.ovl .A) ++ " B:" ++ showStore (n.ovl .B) ++
+    " toA[" ++ " ".intercalate ((n.inbox .A).map showMsg) ++ "] toB[" ++ " ".intercalate ((n.inbox .B).map showMsg) ++ "]"
+
+def parseSite (s : String) : Option Site :=
+  if s = "A" then some .A else if s = "B" then some .B else none
+
+/-- the two-server ops: `n.register <A|B> <tree label>`, `n.ask <A|B> <tree id> <version>`,
+`n.deliver|n.dup|n.drop <A|B> <k>` (the message at position `k mod length` of that server's inbox; `idle` when
+nothing is in flight towards it), `n.unrequest|n.expire <A|B> <tree id>` -/
+def netOp (st : State) (toks : List String) : State × String :=
+  let fin := fun (n : Net) => ({ st with net := n }, showNet n)
+  match toks with
+  | ["n.register", s, l] =>
+    match parseSite s, l.toNat?.bind (lookup st.trees) with
+    | some s, some t => fin (netStep st.net (.loc s (.register t)))
+    | _, _ => (st, "bad-op")
+  | ["n.ask", s, id, v] =>
+    match parseSite s, id.toNat?, v.toNat? with
+    | some s, some id, some v => if v > 1 then (st, "bad-op") else fin (netStep st.net (.ask s id v))
+    | _, _, _ => (st, "bad-op")
+  | ["n.unrequest", s, id] =>
+    match parseSite s, id.toNat? with
+    | some s, some id => fin (netStep st.net (.loc s (.unrequest id)))
+    | _, _ => (st, "bad-op")
+  | ["n.expire", s, id] =>
+    match parseSite s, id.toNat? with
+    | some s, some id => fin (netStep st.net (.loc s (.expire id)))
+    | _, _ => (st, "bad-op")
+  | [op, s, k] =>
+    match parseSite s, k.toNat? with
+    | some s, some k =>
+      let len := (st.net.inbox s).length
+      if op ≠ "n.deliver" ∧ op ≠ "n.dup" ∧ op ≠ "n.drop" then (st, "bad-op")
+      else if len = 0 then (st, "idle " ++ showNet st.net)
+      else
+        let i := k % len
+        if op = "n.deliver" then fin (netStep st.net (.deliver s i))
+        else if op = "n.dup" then fin (netStep st.net (.redeliver s i))
+        else fin (netStep st.net (.drop s i))
+    | _, _ => (st, "bad-op")
+  | _ => (st, "bad-op")
 
 /-- `tree <label> <tree id> <roster label> <member position/node id:arity,…>` -/
 def treeOp (st : State) (l tid r items : String) : State × String :=
@@ -709,6 +821,7 @@ def step (st : State) (toks : List String) : State × String :=
           | none => "learnt:none")
       | _ => (st, "bad-op")
     | _, _ => (st, "bad-op")
+  | op :: rest => if op.startsWith "n." then netOp st (op :: rest) else (st, "bad-op")
   | _ => (st, "bad-op")
 
 end Drv
